@@ -24,7 +24,7 @@ LEVEL_NOTE = ('trusted: Lean kernel + standard axioms; correspondence harness; t
               'map" (XZZX = Hadamard exactly on the qubits along the chosen axis, XY = Y<->Z everywhere) is checked on '
               'every qubit of the bounded size set by the statement-level oracle; for the hand-modelled lattice classes the '
               'closed-form rule is a theorem for all sizes (deformation_rule* in Properties/C01<Class>.lean, incl. XXZZ of '
-              'Color488Code and X3Z3 of Color666ToricCode); the noise-side '
+              'Color488Code, X3Z3 of Color666ToricCode and the Checkerboard XZZX rule of the two rhombic codes); the noise-side '
               'identity P_D(e) = P(D e) is proved in C07/C18 (deformed_distribution, product form) and exercised here')
 TECHNIQUE = 'Lean 4 proof (per-qubit case analysis, list induction, state-machine invariant) + differential correspondence'
 TRUSTED = ['class getters return fresh dicts on each call (model assumption of Model/Deform.lean, exercised by the history stream)']
@@ -168,6 +168,9 @@ def correspondence(ctx):
 
 AXIS_CLASSES = {'Toric2DCode', 'Planar2DCode', 'RotatedPlanar2DCode', 'Toric3DCode', 'Planar3DCode',
                 'RotatedPlanar3DCode', 'RotatedToric3DCode', 'XCubeCode'}
+# 'Checkerboard XZZX' of the rhombic codes: X<->Z exactly on the z edges of the checkerboard (rule proved for
+# all sizes in Properties/C01Rhombic{Planar,Toric}Code.lean: deformation_rule / deformation_on_qubits)
+CHECKERBOARD_CLASSES = {'RhombicPlanarCode', 'RhombicToricCode'}
 
 
 def check_case(c):
@@ -188,6 +191,11 @@ def check_case(c):
                 if dmap_str(d) != want:
                     return (f'XZZX along {kw["deformation_axis"]}: qubit {loc} (axis {base.qubit_axis(loc)}) '
                             f'gets {d}')
+            if name == 'Checkerboard XZZX' and cls in CHECKERBOARD_CLASSES:
+                x, y, z = loc
+                on = z % 2 == 1 and ((z % 4 == 3 and (x + y) % 4 == 2) or (z % 4 == 1 and (x + y) % 4 == 0))
+                if dmap_str(d) != ('ZYX' if on else 'XYZ'):
+                    return f'Checkerboard XZZX: qubit {loc} gets {d}, expected {"X<->Z" if on else "identity"}'
             # same answer from the deformed object and on repeated calls (depends on location only)
             if d1.get_deformation(loc, name, **kw) != d:
                 return f'get_deformation({loc}) differs between a deformed and an undeformed object'
